@@ -122,6 +122,16 @@ pub struct GenParams {
     /// constructors of top-level create transactions often call back the transaction origin (a
     /// delegated sender then runs its delegate's code, in its own context, inside a create tx)
     pub ctor_calls_origin: bool,
+    /// addresses that CREATE will produce in this block (hot contracts at nonce 1..2, senders at
+    /// their next three nonces) are known up front: half of them already hold a small balance
+    /// (nonce 0, no code), and transactions call / fund / inspect them before and after creation
+    pub derived_create_addrs: bool,
+    /// percent of valid authorisations whose nonce bump the generator "forgets": the authority's
+    /// own later transactions then carry a nonce that is stale by one *because of a transaction
+    /// somebody else sent* (in order: NonceTooLow skip, then the next one is valid again)
+    pub forget_auth_bump_pct: u64,
+    /// deliberately invalid transactions are mostly nonce-too-low / nonce-too-high
+    pub invalid_nonce_bias: bool,
 }
 
 pub const CREATE2_SPECS: &[SpecId] = &[
@@ -164,6 +174,9 @@ impl Default for GenParams {
             refunder_contract: false,
             reborn_contract: false,
             ctor_calls_origin: false,
+            derived_create_addrs: false,
+            forget_auth_bump_pct: 0,
+            invalid_nonce_bias: false,
         }
     }
 }
@@ -364,8 +377,10 @@ pub fn make_invalid(
     block: &BlockEnv,
     contract: Address,
     r: &mut Rng,
+    nonce_bias: bool,
 ) -> Option<&'static str> {
-    match r.below(11) {
+    let pick = if nonce_bias && r.chance(3, 4) { *r.pick(&[0u64, 0, 1]) } else { r.below(11) };
+    match pick {
         0 => {
             if tx.nonce == 0 {
                 return None;
@@ -633,6 +648,27 @@ pub fn generate(p: &GenParams, seed: u64) -> Case {
     }
     // the empty account
     accounts.insert(table_addr(layout.idx_empty()), AccountSeed::default());
+    if p.derived_create_addrs {
+        let mut derived = Vec::new();
+        for i in 0..n_con {
+            for n in 1..=2u64 {
+                derived.push(layout.con(i).create(n));
+            }
+        }
+        for i in 0..n_eoa {
+            let e = layout.eoa(i);
+            let n0 = accounts.get(&e).map(|a| a.nonce).unwrap_or(0);
+            for k in 0..3u64 {
+                derived.push(e.create(n0 + k));
+            }
+        }
+        for d in &derived {
+            if r.chance(1, 2) {
+                accounts.insert(*d, AccountSeed { balance: U256::from(r.range(1, 9)), nonce: 0, code: None, storage: BTreeMap::new() });
+            }
+        }
+        create2_addrs.extend(derived);
+    }
 
     // beneficiary
     let role = *r.pick(p.ben_roles);
@@ -699,7 +735,7 @@ pub fn generate(p: &GenParams, seed: u64) -> Case {
             }
             _ => {
                 // any table entry, sometimes a CREATE2-derived address
-                let to = if !create2_addrs.is_empty() && r.chance(1, 3) {
+                let to = if !create2_addrs.is_empty() && r.chance(if p.derived_create_addrs { 3 } else { 2 }, 6) {
                     *r.pick(&create2_addrs)
                 } else {
                     table_addr(r.below(layout.table))
@@ -728,7 +764,7 @@ pub fn generate(p: &GenParams, seed: u64) -> Case {
         }
         let mut kind = None;
         if invalid {
-            kind = make_invalid(&mut tx, spec, &block, layout.con(r.below(n_con)), &mut r);
+            kind = make_invalid(&mut tx, spec, &block, layout.con(r.below(n_con)), &mut r, p.invalid_nonce_bias);
         }
         if kind.is_none() {
             // intended valid: the sender's nonce advances
@@ -746,7 +782,7 @@ pub fn generate(p: &GenParams, seed: u64) -> Case {
                 };
                 let wrong = r.chance(1, 8);
                 let auth_nonce = if wrong { nonces.get(authority) + r.range(1, 2) } else { nonces.get(authority) };
-                if !wrong && kind.is_none() {
+                if !wrong && kind.is_none() && !r.chance(p.forget_auth_bump_pct, 100) {
                     nonces.bump(authority);
                 }
                 let chain_id = if r.chance(1, 10) { U256::from(1u64) } else { U256::ZERO };
